@@ -79,6 +79,37 @@ def main():
                                   tags=bad)
         if len(samples) < 3 and len(l) >= 4:
             samples.append({"list": l, "probe": c["probes"][4], "expected_eq_lt_le_gt_ge": c["r"][4]})
+    # the same LIST OBJECT searched, grown at its tail (the way the index's timestamp list grows), and searched again: the
+    # expectation for the grown list is the exported one for that list; nothing may be remembered from the first search
+    table = {(tuple(c["l"] if isinstance(c["l"], list) else []), pi): c["r"][pi] for c in cases for pi in range(len(c["probes"]))}
+    probes = cases[0]["probes"] if cases else []
+    n_grown = 0
+    for c in cases[:: 3 if not thorough else 1]:
+        l = c["l"] if isinstance(c["l"], list) else []
+        if not l or len(l) >= maxlen:
+            continue
+        for grow in (l[-1], l[-1] + 2):
+            l2 = l + [grow]
+            if (tuple(l2), 0) not in table:
+                continue
+            shared = list(l)
+            for pi, x in enumerate(probes):
+                for f in fns:
+                    f(shared, x)
+            shared.append(grow)
+            for pi, x in enumerate(probes):
+                exp = table[(tuple(l2), pi)]
+                try:
+                    got = [_none(f(shared, x)) for f in fns]
+                except Exception as e:  # noqa
+                    got = "raised %r" % (e,)
+                n_eval += 1
+                n_grown += 1
+                if got != exp:
+                    bad = [FUNCS[i] for i in range(5) if got == str(got) or got[i] != exp[i]]
+                    rep.violation("%s(%r, %r) after the same list object had been searched and then grown by %r: expected %r, got %r"
+                                  % ("/".join(bad), l2, x, grow, exp, got),
+                                  {"kind": "grown", "list": l2, "probe": x, "expected": exp, "got": got}, tags=bad + ["grown"])
 
     # ---- code -> spec ------------------------------------------------------
     rng = random.Random(rep.seed * 7919 + 18)
@@ -177,6 +208,14 @@ def replay(rep):
     common.use_repo()
     from tinyflux import utils
     c = rep["case"]
-    got = [_none(getattr(utils, f)(list(c["list"]), c["probe"])) for f in FUNCS]
+    if c.get("kind") == "grown":          # search the list without its last element (every probe), grow it, search again
+        shared = list(c["list"][:-1])
+        for x in range(0, 11):
+            for f in FUNCS:
+                getattr(utils, f)(shared, x)
+        shared.append(c["list"][-1])
+        got = [_none(getattr(utils, f)(shared, c["probe"])) for f in FUNCS]
+    else:
+        got = [_none(getattr(utils, f)(list(c["list"]), c["probe"])) for f in FUNCS]
     print("list=%r probe=%r\n expected=%r\n got     =%r" % (c["list"], c["probe"], c.get("expected"), got))
     return 0 if got == c.get("expected") else 1
